@@ -234,10 +234,10 @@ func (x *Exec) runLoop(f *frame, L *loop) {
 			nUnw := len(x.Unwinds)
 			x.runRegion(f, L)
 			// an iteration counts against the bound unless the whole iteration was decided concretely: the header's
-			// test folded to a constant, no symbolic exit was taken (the back-edge guard is the iteration's guard) and no
-			// loop inside it was cut at its bound (cut paths are dropped, which can make the rest look concrete)
+			// test folded to a constant and no loop inside it was cut at its bound (cut paths are dropped, which can make
+			// the rest of an endless `for {}` look concrete forever)
 			_, isIf := H.Instrs[len(H.Instrs)-1].(*ssa.If)
-			if ng := f.pendG[H]; !isIf || !f.condConst[H] || (ng != nil && ng != g) || len(x.Unwinds) > nUnw {
+			if !isIf || !f.condConst[H] || len(x.Unwinds) > nUnw {
 				symIters++
 			}
 			if x.Trace {
@@ -541,6 +541,9 @@ func (x *Exec) step(f *frame, b *ssa.BasicBlock, ins ssa.Instruction) {
 	case *ssa.If:
 		cond := x.term(f, ins.Cond)
 		f.condConst[b] = cond.IsConst()
+		if x.Trace && !cond.IsConst() && f.fn.Name() == "vpPathEmpty" {
+			fmt.Printf("      sym cond in %s block %d: %v op=%d args=%v\n", f.fn.Name(), b.Index, cond, cond.Op, cond.Args)
+		}
 		x.edge(f, b, b.Succs[0], c.And(f.g, cond))
 		x.edge(f, b, b.Succs[1], c.And(f.g, c.Not(cond)))
 	case *ssa.Jump:
@@ -607,6 +610,7 @@ func (x *Exec) value(f *frame, ins ssa.Value) Val {
 	case *ssa.Alloc:
 		et := v.Type().(*types.Pointer).Elem()
 		o := x.newObj(v.Comment+"@"+f.fn.Name(), et, x.zero(et))
+		o.AllocG = f.g
 		return ptrTo(o, c.True)
 	case *ssa.BinOp:
 		return x.binop(f, v)
@@ -1251,7 +1255,17 @@ func (x *Exec) callFn(f *frame, fn *ssa.Function, args []Val, binds []Val, call 
 		return in(x, f, call, args, f.g)
 	}
 	if x.Trace {
-		fmt.Printf("%scall %s\n", strings.Repeat("  ", x.depth), name)
+		desc := ""
+		for i, a := range args {
+			if t, ok := a.(*Term); ok {
+				if t.IsConst() {
+					desc += fmt.Sprintf(" a%d=%d", i, t.C)
+				} else {
+					desc += fmt.Sprintf(" a%d=sym", i)
+				}
+			}
+		}
+		fmt.Printf("%scall %s%s\n", strings.Repeat("  ", x.depth), name, desc)
 	}
 	return x.Call(fn, args, binds, f.g)
 }
